@@ -63,16 +63,20 @@ def run(ctx):
               "sequences on a real POXCore validated by TLC; distinct = distinct action/argument "
               "sequences; non-trivial = at least one waiter fired or lifecycle event raised")
   ctx.assumptions = [
-      "bounds: exhaustive catalogs have 2-3 (thorough: 4) components and 2-4 (thorough: 5) waiters with fixed "
-      "callback scripts (none, register, fail, register-then-fail, declare another waiter); 5 components / "
-      "5 waiters are covered by simulation and random traces only",
+      "bounds: exhaustive catalogs have 2-3 (thorough: 4) components and 2-4 waiters with fixed callback "
+      "scripts (none, register, fail, register-then-fail, declare another waiter), every dependency set "
+      "(quick: 4-5 sets per catalog) and <= 2 (thorough: 3) GoingUp handlers; 5 components / 5 waiters are "
+      "covered by simulation and random traces only",
       "single thread: quit() is driven after goUp() from the harness thread, the scheduler is stepped by the "
       "harness inside a virtual time.sleep; concurrent quit() calls and quit() during start-up (thread "
       "respawn loop) are not explored",
       "the order in which simultaneously ready waiters are invoked is latitude (spec exports every order)",
-      "GoingUp deferrals are obtained only by GoingUp handlers (event.get_deferral())"]
+      "GoingUp deferrals are obtained through event.get_deferral(), by GoingUp handlers or later from the "
+      "kept event; lifecycle events are expected synchronously inside goUp() / the deferral call / quit()",
+      "what a sink gets when its rendezvous happens (listeners for its _handle_<component>_<Event> methods, "
+      "attributes, _all_dependencies_met) is taken from listen_to_dependencies' documentation"]
   mc_cfgs = ["QA", "QB", "L2"] if quick else ["A", "B", "C", "L3"]
-  ex_cfgs = ["QA", "QB", "L2"] if quick else ["QA", "QB", "L2", "L3", "B"]
+  ex_cfgs = ["QA", "QB", "L2"] if quick else ["QA", "QB", "L2", "L3", "C"]
   nsim = 80 if quick else 2500
   with ThreadPoolExecutor(max_workers=4 if quick else 6) as pool:
     f_mc = [(c, pool.submit(_mc, c)) for c in mc_cfgs]
@@ -88,11 +92,14 @@ def run(ctx):
     exported = [(c, f.result()) for c, f in f_ex]
     sims = [(c, f.result()) for c, f in f_sim]
   # 2. spec -> code: every transition of the abstract graphs
-  nstyles = 1 if quick else 4
+  for c, (cat, behs) in exported:           # literal samples worth reading first
+    best = max(behs, key=lambda b: (sum(len(lg) for st in b for lg in st["exp"]["logs"][:1]), -len(b)))
+    ctx.samples.append([dict(a=st["a"], args=st["args"],
+                             exp={k: v for k, v in st["exp"].items() if k != "alt"}) for st in best])
   cats = {}
   for i, (c, (cat, behs)) in enumerate(exported):
     cats[c] = cat
-    for k in range(nstyles):
+    for k in range(1 if quick or len(behs) > 50000 else 3):
       style = (ctx.seed + 5 * i + 7 * k) % 24
       st = core.replay(ctx, ADAPTER, behs, params=dict(catalog=cat, style=style),
                        nontrivial=nontrivial)
